@@ -96,6 +96,14 @@ def apply_analysis(sess, op):
     if results[0][0] != "ok":
         sess.stats["analysis_raised:" + k + ":" + results[0][1]] += 1
     E = sess.enabled
+    if "C17" in E and k in ("make_diag", "make_hdiag", "solve", "rail_rep", "batt_life"):
+        from . import world as W
+        from .spec import LIMITS_DEFAULT as DOC_LIMITS
+
+        if w.D.get_conf() != W.PRISTINE_CONF:
+            sess.fail("C17", "analysis-changed-library-defaults", "%s %s: get_conf() no longer returns the default configuration" % (k, _opsum(op)))
+        if w.C.LIMITS_DEFAULT != DOC_LIMITS:
+            sess.fail("C17", "analysis-changed-library-defaults", "%s %s: components.LIMITS_DEFAULT changed to %s" % (k, _opsum(op), {a: b for a, b in w.C.LIMITS_DEFAULT.items() if DOC_LIMITS.get(a) != b}))
     if "C17" in E:
         # objects passed to the analysis are unchanged
         for label, obj, before in passed:
